@@ -34,7 +34,17 @@ FOREVER == 16777215
 CfgDefault == [ maxId      |-> 3,       \* session ids wrap after maxId (65535 in the code; small in interleaving configs)
                 seeReboot  |-> FALSE,   \* reboot_detected calls on the three components are observable
                 timerPhase |-> FALSE,   \* environment inputs may also run among the due timers of an iteration
-                watch0     |-> <<>> ]   \* initial listener registrations
+                watch0     |-> <<>>,    \* initial listener registrations
+                \* announcer (someip.sd.Timings; integer ticks)
+                initMin |-> 0, initMax |-> 0, reps |-> 0, base |-> 1, cyclic |-> 4, annTTL |-> 12,
+                collect |-> 0, rrMin |-> 0, rrMax |-> 0,
+                randVals |-> {0},      \* values random.uniform may return (clamped into the requested window)
+                inst |-> <<>>,         \* [instance -> [svc, egs (declared eventgroups), subs (service names of Subscribe entries it accepts)]]
+                ann0 |-> <<>>,         \* instances announced before the run
+                findMatch |-> <<>>,    \* [find filter -> set of service names it matches]
+                rejectCtr |-> {},      \* the server-side listener rejects subscriptions with these counters
+                stopTwice |-> FALSE,   \* the environment may stop an already stopped announcer
+                peers |-> <<>> ]
 
 \* all deviation switches off = the intended design; AsShipped = the pinned commit 06eaa50
 AllOff == [ DeferExpiryNotify   |-> FALSE,  \* D1  TimedStore._expired defers its callback
@@ -47,9 +57,15 @@ AllOff == [ DeferExpiryNotify   |-> FALSE,  \* D1  TimedStore._expired defers it
             ForeverGetsTimer    |-> FALSE,  \* spec mutant: the infinite TTL arms a timer
             RebootNeedsSmallerId |-> FALSE, \* spec mutant: '>' instead of '>=' in the reboot rule
             WrapToZero          |-> FALSE,  \* spec mutant: the counter wraps to 0 instead of 1
-            EmptySendTakesId    |-> FALSE ] \* spec mutant: an empty send consumes a session id
+            EmptySendTakesId    |-> FALSE,  \* spec mutant: an empty send consumes a session id
+            FindAnswerIgnoresStop |-> FALSE, \* D4/D4' a queued find answer is sent although the instance was stopped
+            NonCyclicKeepsAnswering |-> FALSE, \* D5  stop() never resets _can_answer_offers
+            StopTwiceRaises     |-> FALSE,  \* D6  stopping a stopped instance raises RuntimeError
+            CancelCollectorsOnStop |-> FALSE, \* spec mutant: stop() cancels the collectors' timers but leaves them open
+            AckBeforeListener   |-> FALSE ] \* spec mutant: a rejected subscription is acknowledged positively
 AsShipped == [AllOff EXCEPT !.DeferExpiryNotify = TRUE, !.DeferStopAllNotify = TRUE, !.DeferRebootFanout = TRUE,
-                            !.IgnoreWhenUnwatched = TRUE, !.DeferWatchReplay = TRUE, !.DeferHandleOffer = TRUE]
+                            !.IgnoreWhenUnwatched = TRUE, !.DeferWatchReplay = TRUE, !.DeferHandleOffer = TRUE,
+                            !.FindAnswerIgnoresStop = TRUE, !.NonCyclicKeepsAnswering = TRUE, !.StopTwiceRaises = TRUE]
 
 -----------------------------------------------------------------------------
 (* ------------------------------ helpers --------------------------------- *)
@@ -131,9 +147,11 @@ Has(s, st, a, key) == <<a, key>> \in s.store[st]
 TSNew(s, st, a, key) ==
   CASE st = "found" -> NotifyFound(s, "offered", key, a)
     [] st = "ts"    -> Out(s, [k |-> "out", op |-> "new", a |-> a, key |-> key])
+    [] OTHER        -> Out(s, [k |-> "out", op |-> "subscribed", inst |-> st, sub |-> key, src |-> a, acc |-> TRUE])
 TSGone(s, st, a, key) ==
   CASE st = "found" -> NotifyFound(s, "stopped", key, a)
     [] st = "ts"    -> Out(s, [k |-> "out", op |-> "gone", a |-> a, key |-> key])
+    [] OTHER        -> Out(s, [k |-> "out", op |-> "unsubscribed", inst |-> st, sub |-> key, src |-> a])
 
 \* TimedStore.refresh: a new entry is reported, an old timer cancelled; the new deadline replaces
 \* the old one (no timer at all for the infinite TTL)
@@ -201,6 +219,148 @@ Unwatch(s, l, f) ==
   IN ReplaySeq(s1, SetToSeq({k \in s.store["found"] : k[2] \in Match[f]}), "stopped", l, Sw.DeferWatchReplay)
 
 -----------------------------------------------------------------------------
+(* ------------- announcer: SendCollector, ServiceInstance, offer task ------ *)
+\* s.started            ServiceAnnouncer.started
+\* s.ann                announcing_services (list, in order)
+\* s.inst[i]            [task |-> id of the running offer task or 0, can |-> _can_answer_offers]
+\* s.tasks[id]          [st \in {created, sleeping, wakeq}, pc, i, must, inst]   (finished tasks are dropped)
+\* s.queues[dst]        items of the open SendCollector for dst (no entry = no open collector)
+\* s.store[i]           ServiceInstance.subscriptions (TimedStore), keys = subscription identities
+Pow2(i) == CASE i = 0 -> 1 [] i = 1 -> 2 [] i = 2 -> 4 [] i = 3 -> 8 [] i = 4 -> 16 [] OTHER -> 32
+Clamp(x, lo, hi) == IF x < lo THEN lo ELSE IF x > hi THEN hi ELSE x
+\* random.uniform(lo, hi): the step's choice s.ch clamped into the window; the request is observable
+Rand(s, lo, hi) == Clamp(s.ch, lo, hi)
+RandObs(s, lo, hi) == Out(s, [k |-> "rand", lo |-> lo, hi |-> hi, val |-> Rand(s, lo, hi)])
+
+\* ServiceAnnouncer.queue_send: immediate with a zero collection timeout, else per-destination collector
+QueueSend(s, dst, en) ==
+  IF Cfg.collect = 0 THEN SendSD(s, dst, <<en>>)
+  ELSE IF dst \in DOMAIN s.queues THEN [s EXCEPT !.queues[dst] = Append(@, en)]
+  ELSE CallLater([s EXCEPT !.queues = Put(@, dst, <<en>>)], Cfg.collect, [kind |-> "collect", dst |-> dst])
+\* SendCollector._handle_timeout
+Collect(s, dst) ==
+  IF dst \notin DOMAIN s.queues THEN s
+  ELSE SendSD([s EXCEPT !.queues = Remove(@, dst)], dst, s.queues[dst])
+
+OfferEntry(i, ttl) == [ty |-> "offer", svc |-> Cfg.inst[i].svc, ttl |-> ttl]
+SendOffer(s, i, dst, stop) == QueueSend(s, dst, OfferEntry(i, IF stop THEN 0 ELSE Cfg.annTTL))
+
+\* ---- task plumbing (DESIGN §3): create_task -> first step next iteration; sleep(d>0) -> timer
+\*      callback "wake" makes the task runnable, its continuation runs one iteration later;
+\*      sleep(0) -> one hop; cancel() while sleeping -> woken with CancelledError next iteration;
+\*      cancel() while the wake-up is queued / before the first step -> delivered at that step
+NewTaskId(s) == CHOOSE n \in 1..(Cardinality(DOMAIN s.tasks) + 1) : n \notin DOMAIN s.tasks
+Sleep(s, tk, dl, pc, i) ==
+  IF dl = 0
+  THEN CallSoon([s EXCEPT !.tasks[tk] = [@ EXCEPT !.st = "wakeq", !.pc = pc, !.i = i]], [kind |-> "step", tk |-> tk])
+  ELSE CallLater([s EXCEPT !.tasks[tk] = [@ EXCEPT !.st = "sleeping", !.pc = pc, !.i = i]], dl, [kind |-> "wake", tk |-> tk])
+TaskDone(s, tk) == [s EXCEPT !.tasks = Remove(@, tk)]
+Wake(s, tk) ==
+  IF tk \in DOMAIN s.tasks /\ s.tasks[tk].st = "sleeping"
+  THEN CallSoon([s EXCEPT !.tasks[tk].st = "wakeq"], [kind |-> "step", tk |-> tk]) ELSE s
+CancelTask(s, tk) ==
+  IF tk \notin DOMAIN s.tasks THEN s
+  ELSE IF s.tasks[tk].st = "sleeping"
+  THEN CallSoon(CancelTimer([s EXCEPT !.tasks[tk] = [@ EXCEPT !.must = TRUE, !.st = "wakeq"]], [kind |-> "wake", tk |-> tk]),
+                [kind |-> "step", tk |-> tk])
+  ELSE [s EXCEPT !.tasks[tk].must = TRUE]
+
+\* ---- ServiceInstance._offer_task: pc 0 initial wait, 1 first offer, 2 repetition i, 3 cyclic
+AfterReps(s, tk) == IF Cfg.cyclic = 0 THEN TaskDone(s, tk) ELSE Sleep(s, tk, Cfg.cyclic, 3, 0)
+RepOrAfter(s, tk, i) == IF i < Cfg.reps THEN Sleep(s, tk, Pow2(i) * Cfg.base, 2, i) ELSE AfterReps(s, tk)
+OfferStep(s, tk) ==
+  IF tk \notin DOMAIN s.tasks THEN s
+  ELSE LET t == s.tasks[tk]  i == t.inst IN
+  IF t.must
+  THEN IF t.pc \in {0, 1} THEN TaskDone(s, tk)              \* CancelledError outside the try: nothing sent
+       ELSE LET s1 == [s EXCEPT !.inst[i].can = FALSE]      \* except CancelledError / finally
+            IN TaskDone(IF Cfg.cyclic # 0 THEN SendOffer(s1, i, "mc", TRUE) ELSE s1, tk)
+  ELSE CASE t.pc = 0 -> Sleep(RandObs(s, Cfg.initMin, Cfg.initMax), tk, Rand(s, Cfg.initMin, Cfg.initMax), 1, 0)
+         [] t.pc = 1 -> RepOrAfter([SendOffer(s, i, "mc", FALSE) EXCEPT !.inst[i].can = TRUE], tk, 0)
+         [] t.pc = 2 -> RepOrAfter(SendOffer(s, i, "mc", FALSE), tk, t.i + 1)
+         [] t.pc = 3 -> Sleep(SendOffer(s, i, "mc", FALSE), tk, Cfg.cyclic, 3, 0)
+
+Exc(s, what) == Out(s, [k |-> "exc", what |-> what])
+
+\* ServiceInstance.start / stop
+InstStart(s, i) ==
+  IF s.inst[i].task # 0 THEN Exc(s, "task already started")
+  ELSE LET tk == NewTaskId(s) IN
+       CallSoon([s EXCEPT !.inst[i] = [task |-> tk, can |-> FALSE],
+                          !.tasks = Put(@, tk, [st |-> "created", pc |-> 0, i |-> 0, must |-> FALSE, inst |-> i])],
+                [kind |-> "step", tk |-> tk])
+InstStopBody(s, i) ==
+  LET s1 == CancelTask(s, s.inst[i].task)
+      s2 == [s1 EXCEPT !.inst[i].task = 0,
+                       !.inst[i].can = IF Sw.NonCyclicKeepsAnswering THEN @ ELSE FALSE]   \* D5 as shipped: never reset
+      s3 == IF Cfg.cyclic = 0 THEN SendOffer(s2, i, "mc", TRUE) ELSE s2
+  IN TSStopAll(s3, i)
+\* result: <<state, raised>>.  As shipped a second stop raises RuntimeError (D6); intended: no-op.
+InstStop(s, i) ==
+  IF s.inst[i].task = 0
+  THEN IF Sw.StopTwiceRaises THEN <<Exc(s, "task already stopped"), TRUE>> ELSE <<s, FALSE>>
+  ELSE <<InstStopBody(s, i), FALSE>>
+
+RECURSIVE StartAll(_, _)
+StartAll(s, q) == IF q = <<>> THEN s ELSE StartAll(InstStart(s, Head(q)), Tail(q))
+RECURSIVE StopAllInst(_, _)
+StopAllInst(s, q) ==      \* <<state, raised>>: an exception aborts the loop over the instances
+  IF q = <<>> THEN <<s, FALSE>>
+  ELSE LET r == InstStop(s, Head(q)) IN IF r[2] THEN r ELSE StopAllInst(r[1], Tail(q))
+AnnStart(s) == [StartAll(s, s.ann) EXCEPT !.started = TRUE]
+AnnStop(s0) ==
+  LET s == IF Sw.CancelCollectorsOnStop THEN [s0 EXCEPT !.timers = {x \in @ : x.cb.kind # "collect"}] ELSE s0
+      r == StopAllInst(s, s.ann)
+  IN IF r[2] THEN r[1] ELSE [r[1] EXCEPT !.started = FALSE]
+Announce(s, i) ==
+  LET s1 == IF s.started THEN InstStart(s, i) ELSE s IN [s1 EXCEPT !.ann = Append(@, i)]
+StopAnnounce(s, i) ==
+  IF ~\E n \in DOMAIN s.ann : s.ann[n] = i THEN Exc(s, "not announcing")
+  ELSE LET n  == CHOOSE n \in DOMAIN s.ann : s.ann[n] = i /\ \A m \in 1..(n - 1) : s.ann[m] # i
+           s1 == [s EXCEPT !.ann = SubSeq(@, 1, n - 1) \o SubSeq(@, n + 1, Len(@))]
+       IN IF s.started THEN InstStop(s1, i)[1] ELSE s1
+
+\* ---- FindService: matching, ready instances answer by unicast; multicast requests after a delay.
+\*      A delayed answer belongs to the incarnation that was asked: intended design drops it when
+\*      the instance was stopped meanwhile (as shipped it is still sent: D4).
+AnswerFind(s, i, dst) ==
+  IF ~Sw.FindAnswerIgnoresStop /\ (s.inst[i].task = 0 \/ ~s.inst[i].can) THEN s
+  ELSE SendOffer(s, i, dst, FALSE)
+RECURSIVE AnswerSeq(_, _, _, _, _)
+AnswerSeq(s, q, dst, mc, dl) ==
+  IF q = <<>> THEN s
+  ELSE LET cb == [kind |-> "answer", inst |-> Head(q), dst |-> dst]
+       IN AnswerSeq(IF mc THEN CallLater(s, dl, cb) ELSE CallSoon(s, cb), Tail(q), dst, mc, dl)
+HandleFind(s, src, mc, en) ==
+  LET hit == SelectSeq(s.ann, LAMBDA i : s.inst[i].can /\ Cfg.inst[i].svc \in Cfg.findMatch[en.svc])
+  IN IF hit = <<>> THEN s
+     ELSE IF mc THEN AnswerSeq(RandObs(s, Cfg.rrMin, Cfg.rrMax), hit, src, TRUE, Rand(s, Cfg.rrMin, Cfg.rrMax))
+     ELSE AnswerSeq(s, hit, src, FALSE, 0)
+
+\* ---- Subscribe: every announcing instance is asked in list order; nobody matched -> Nack
+AckEntry(en, ttl) == [ty |-> "ack", svc |-> en.svc, eg |-> en.eg, ctr |-> en.ctr, ttl |-> ttl]
+SubKey(en) == [svc |-> en.svc, eg |-> en.eg, ctr |-> en.ctr, eps |-> en.eps]
+InstMatchesSub(i, en) == en.svc \in Cfg.inst[i].subs /\ en.eg \in Cfg.inst[i].egs
+\* ServiceInstance.handle_subscribe -> <<state, matched>>
+InstSubscribe(s, i, src, en) ==
+  IF s.inst[i].task = 0 \/ ~InstMatchesSub(i, en) THEN <<s, FALSE>>
+  ELSE IF en.ttl = 0 THEN <<TSStop(s, i, src, SubKey(en)), TRUE>>
+  ELSE IF ~Has(s, i, src, SubKey(en)) /\ en.ctr \in Cfg.rejectCtr      \* listener raises NakSubscription
+       THEN <<QueueSend(Out(s, [k |-> "out", op |-> "subscribed", inst |-> i, sub |-> SubKey(en), src |-> src, acc |-> FALSE]),
+                        src, AckEntry(en, IF Sw.AckBeforeListener THEN en.ttl ELSE 0)), TRUE>>
+       ELSE <<QueueSend(TSRefresh(s, i, src, SubKey(en), en.ttl), src, AckEntry(en, en.ttl)), TRUE>>
+RECURSIVE SubscribeSeq(_, _, _, _, _)
+SubscribeSeq(s, q, src, en, any) ==
+  IF q = <<>> THEN <<s, any>>
+  ELSE LET r == InstSubscribe(s, Head(q), src, en) IN SubscribeSeq(r[1], Tail(q), src, en, any \/ r[2])
+HandleSubscribe(s, src, en) ==
+  LET r == SubscribeSeq(s, s.ann, src, en, FALSE)
+  IN IF r[2] THEN r[1] ELSE QueueSend(r[1], src, AckEntry(en, 0))
+
+RECURSIVE RebootAnnSeq(_, _, _)
+RebootAnnSeq(s, q, src) == IF q = <<>> THEN s ELSE RebootAnnSeq(TSStopAddr(s, Head(q), src), Tail(q), src)
+
+-----------------------------------------------------------------------------
 (* ----------------- ServiceDiscoveryProtocol: receive path ---------------- *)
 \* reboot_detected: subscriber (no-op), discovery, announcer -- each exactly once per detection.
 \* With Cfg.seeReboot the three calls are observable (the harness wraps the components).
@@ -208,7 +368,7 @@ RebootObs(s, comp, src) ==
   IF Cfg.seeReboot THEN Out(s, [k |-> "out", op |-> "reboot", comp |-> comp, a |-> src]) ELSE s
 RebootDisc(s, src) == FoundStopAddr(RebootObs(s, "disc", src), src)
 RebootSub(s, src) == RebootObs(s, "sub", src)
-RebootAnn(s, src) == RebootObs(s, "ann", src)
+RebootAnn(s, src) == RebootAnnSeq(RebootObs(s, "ann", src), s.ann, src)
 RebootFanout(s, src) ==
   IF Sw.DeferRebootFanout
   THEN CallSoon(CallSoon(CallSoon(s, [kind |-> "reboot_sub", a |-> src]), [kind |-> "reboot_disc", a |-> src]),
@@ -222,7 +382,9 @@ DispatchEntries(s, src, mc, es) ==
            s1 == CASE en.ty = "offer" -> IF Sw.DeferHandleOffer
                                          THEN CallSoon(s, [kind |-> "handle_offer", a |-> src, en |-> en])
                                          ELSE HandleOffer(s, src, en)
-                   [] OTHER -> s
+                   [] en.ty = "find" -> HandleFind(s, src, mc, en)
+                   [] en.ty = "sub"  -> IF mc THEN s ELSE HandleSubscribe(s, src, en)   \* multicast Subscribe: dropped
+                   [] OTHER -> s                                                          \* SubscribeAck: logged only
        IN DispatchEntries(s1, src, mc, Tail(es))
 
 \* datagram_received for a decodable SD message (one loop callback)
@@ -232,8 +394,10 @@ Rx(s, e) ==
       s2  == IF reb THEN RebootFanout(s1, e.src) ELSE s1
   IN IF e.uc THEN DispatchEntries(s2, e.src, e.mc, e.es) ELSE s2
 
+\* the moment a component really handles the connection loss is observable (the harness wraps the methods)
+ClApplied(s, comp) == Out(s, [k |-> "out", op |-> "cl_applied", comp |-> comp])
 ConnLost(s) ==   \* ServiceDiscoveryProtocol.connection_lost defers to the three components
-  CallSoon(s, [kind |-> "connlost_disc"])
+  CallSoon(CallSoon(CallSoon(s, [kind |-> "connlost_sub"]), [kind |-> "connlost_disc"]), [kind |-> "connlost_ann"])
 
 -----------------------------------------------------------------------------
 (* ------------------------ one callback = one step ------------------------ *)
@@ -244,6 +408,11 @@ Input(s, e) ==      \* an environment input, delivered as an I/O callback
     [] e.op = "unwatch"  -> Unwatch(s0, e.lst, e.flt)
     [] e.op = "connlost" -> ConnLost(s0)
     [] e.op = "send"     -> SendSD(s0, e.dst, e.es)          \* public send_sd (C08)
+    [] e.op = "ann_start" -> AnnStart(s0)
+    [] e.op = "ann_stop"  -> AnnStop(s0)
+    [] e.op = "announce"  -> Announce(s0, e.inst)
+    [] e.op = "stop_announce" -> StopAnnounce(s0, e.inst)
+    [] e.op = "queue"    -> QueueSend(s0, e.dst, e.en)       \* public queue_send (C15)
     \* a bare TimedStore driven through its public methods (C09)
     [] e.op = "ts_refresh"  -> TSRefresh(s0, "ts", e.a, e.key, e.ttl)
     [] e.op = "ts_stop"     -> TSStop(s0, "ts", e.a, e.key)
@@ -260,8 +429,14 @@ Effect(s, c) ==
     [] c.kind = "reboot_disc"    -> RebootDisc(s, c.a)
     [] c.kind = "reboot_sub"     -> RebootSub(s, c.a)
     [] c.kind = "reboot_ann"     -> RebootAnn(s, c.a)
-    [] c.kind = "connlost_disc"  -> FoundStopAll(s)
+    [] c.kind = "connlost_disc"  -> FoundStopAll(ClApplied(s, "disc"))
     [] c.kind = "cancelled"      -> s
+    [] c.kind = "step"           -> OfferStep(s, c.tk)
+    [] c.kind = "wake"           -> Wake(s, c.tk)
+    [] c.kind = "collect"        -> Collect(s, c.dst)
+    [] c.kind = "answer"         -> AnswerFind(s, c.inst, c.dst)
+    [] c.kind = "connlost_ann"   -> AnnStop(ClApplied(s, "ann"))
+    [] c.kind = "connlost_sub"   -> ClApplied(s, "sub")
 
 -----------------------------------------------------------------------------
 VARIABLE s
@@ -270,19 +445,40 @@ vars == <<s>>
 Init ==
   s = [ ready |-> <<>>, todo |-> 0, timers |-> {}, outs |-> <<>>, ev |-> 0, idle |-> 0,
         sessIn |-> <<>>, sessOut |-> <<>>, peer |-> <<>>, watch |-> Cfg.watch0, wkeys |-> UNION Range(Cfg.watch0) \ {"ALL"},
-        store |-> [found |-> {}, ts |-> {}] ]
+        store |-> [found |-> {}, ts |-> {}] @@ [i \in DOMAIN Cfg.inst |-> {}],
+        started |-> FALSE, ann |-> Cfg.ann0, inst |-> [i \in DOMAIN Cfg.inst |-> [task |-> 0, can |-> FALSE]],
+        tasks |-> <<>>, queues |-> <<>>, ch |-> 0 ]
 
 \* inputs applicable now (a listener registers under one filter at a time: DESIGN §9)
 Applicable(st, e) ==
   CASE e.op = "watch"   -> st.watch[e.lst] = {}
     [] e.op = "unwatch" -> e.flt \in st.watch[e.lst]
+    [] e.op = "ann_start" -> ~st.started
+    [] e.op = "ann_stop"  -> st.started \/ Cfg.stopTwice      \* (C10: stopping a stopped announcer must succeed)
+    [] e.op = "announce"  -> ~\E n \in DOMAIN st.ann : st.ann[n] = e.inst
+    [] e.op = "stop_announce" -> \E n \in DOMAIN st.ann : st.ann[n] = e.inst
     [] OTHER -> TRUE
+
+\* the part of the state that decides applicability, as it will be after input e has run
+Flag(st, e) ==
+  CASE e.op = "ann_start" -> [st EXCEPT !.started = TRUE]
+    [] e.op = "ann_stop"  -> [st EXCEPT !.started = FALSE]
+    [] e.op = "announce"  -> [st EXCEPT !.ann = Append(@, e.inst)]
+    [] e.op = "stop_announce" -> [st EXCEPT !.ann = SelectSeq(@, LAMBDA x : x # e.inst)]
+    [] e.op = "watch"     -> [st EXCEPT !.watch[e.lst] = @ \cup {e.flt}]
+    [] e.op = "unwatch"   -> [st EXCEPT !.watch[e.lst] = @ \ {e.flt}]
+    [] OTHER -> st
+RECURSIVE AllApplicable(_, _)
+AllApplicable(st, ins) ==
+  IF ins = <<>> THEN TRUE
+  ELSE Applicable(st, Head(ins)) /\ AllApplicable(Flag(st, Head(ins)), Tail(ins))
 
 \* the environment peer keeps its own outgoing session counter per (address, channel), wrapping
 \* at Cfg.maxId like a real sender (C08); an input with reboot = TRUE is the first message of a
 \* new incarnation of that peer.  Inputs other than rx are passed through.
 Concretise(st, e) ==
-  IF e.op # "rx" \/ "sid" \in DOMAIN e THEN <<st, e>>     \* (an rx input may also prescribe sid / rb itself)
+  IF e.op = "queue" THEN <<st, [e EXCEPT !.en.tag = st.ev + 1]>>      \* ghost entries get unique tags (C15)
+  ELSE IF e.op # "rx" \/ "sid" \in DOMAIN e THEN <<st, e>>     \* (an rx input may also prescribe sid / rb itself)
   ELSE LET k   == <<e.src, e.mc>>
            cur == IF e.reboot \/ k \notin DOMAIN st.peer THEN <<TRUE, 1>> ELSE st.peer[k]
            nxt == IF cur[2] >= Cfg.maxId THEN <<FALSE, 1>> ELSE <<cur[1], cur[2] + 1>>
@@ -301,17 +497,22 @@ Copies(x, n) == IF n = 0 THEN <<>> ELSE <<x>> \o Copies(x, n - 1)
 RECURSIVE TimerCbs(_)
 TimerCbs(tq) == IF tq = <<>> THEN <<>> ELSE Copies(Head(tq).cb, Head(tq).n) \o TimerCbs(Tail(tq))
 
+\* interleavings of 1..a (kept in order) with a+1..a+b (kept in order)
+Merges(a, b) == {p \in Perms(1..(a + b)) :
+                   \A i, j \in 1..(a + b) : (i < j /\ ((p[i] <= a) = (p[j] <= a))) => p[i] < p[j]}
+
 \* Poll: the iteration boundary.  I/O that arrived first, then due timers in ANY order.
 Poll ==
   /\ s.todo = 0
   /\ \E ins \in {q \in UNION {[1..n -> Inputs] : n \in 0..MaxPerPoll} : Len(q) + s.ev <= MaxEv} :
      \E tq \in Perms(Due(s)) :
        /\ ins # <<>> \/ s.ready # <<>> \/ Due(s) # {}
-       /\ \A i \in DOMAIN ins : Applicable(s, ins[i])
-       /\ LET s1  == Arrive([s EXCEPT !.outs = <<>>, !.ready = <<>>], ins)   \* the I/O callbacks
+       /\ AllApplicable(s, ins)
+       \* (I/O arriving while the loop has nothing to run: the loop was idle at this point -- observable)
+       /\ LET s1  == Arrive([s EXCEPT !.outs = IF IsIdle(s) THEN <<[k |-> "idle"]>> ELSE <<>>, !.ready = <<>>], ins)
               io  == s1.ready
               tcb == TimerCbs(tq)
-          IN \E ord \in (IF Cfg.timerPhase THEN Perms(1..(Len(io) + Len(tcb))) ELSE {[i \in 1..(Len(io) + Len(tcb)) |-> i]}) :
+          IN \E ord \in (IF Cfg.timerPhase THEN Merges(Len(io), Len(tcb)) ELSE {[i \in 1..(Len(io) + Len(tcb)) |-> i]}) :
                LET all == io \o tcb
                    s2  == [s1 EXCEPT !.ready = s.ready \o [i \in DOMAIN all |-> all[ord[i]]], !.timers = @ \ Due(s)]
                IN s' = [s2 EXCEPT !.todo = Len(s2.ready)]
@@ -320,7 +521,7 @@ Run ==
   /\ s.todo > 0
   /\ LET c  == Head(s.ready)
          s0 == [s EXCEPT !.ready = Tail(@), !.todo = @ - 1, !.outs = <<>>]
-     IN s' = Effect(s0, c)
+     IN \E ch \in Cfg.randVals : s' = [Effect([s0 EXCEPT !.ch = ch], c) EXCEPT !.ch = 0]
 
 \* nothing ready, nothing due: the loop is idle; time passes -- one tick, or straight to the next
 \* deadline (the environment can therefore act just before, at and after every deadline)
